@@ -142,6 +142,7 @@ func lbFallbackScenario(e *Env) []string {
 		if len(r.waiting) != ncall || time.Since(t0) > pause-20*time.Millisecond {
 			// too slow to have registered everybody inside the pause: nothing to judge in this round
 			r.close()
+			r.drainGates()
 			continue
 		}
 		before, sb := r.snap()
@@ -159,6 +160,7 @@ func lbFallbackScenario(e *Env) []string {
 		if done != ncall {
 			e.fail("C18-waiter-stranded-after-fallback", fmt.Sprintf("%d of %d callers that arrived during a Fallback pause of %v were still waiting 3s after it ended, although %d targets are live", ncall-done, ncall, pause, len(sb.List)), r.replay())
 			r.close()
+			r.drainGates()
 			continue
 		}
 		quiesce()
@@ -194,6 +196,7 @@ func lbFallbackScenario(e *Env) []string {
 			r.emit(before, ops, saw, true, log, fmt.Sprintf("Fallback ends (woke %d)", ncall))
 		}
 		r.close()
+		r.drainGates()
 		cases = append(cases, r.cases...)
 		e.count("fallback", fmt.Sprintf("fb-%s-%d-%d", schedCoq[r.sched], len(all), ncall))
 	}
